@@ -546,7 +546,7 @@ class Buildable(Generic[T], metaclass=abc.ABCMeta):
     Returns:
       A list of useful attribute names corresponding to set or unset parameters.
     """
-    set_argument_names = self.__arguments__.keys()
+    set_argument_names = [k for k in self.__arguments__ if isinstance(k, str)]
     valid_param_names = set(self.__signature_info__.valid_param_names)
     all_names = valid_param_names.union(set_argument_names)
     return all_names
